@@ -130,8 +130,30 @@ package timing
 //@   ensures result != nil
 //@   assigns nothing
 
-// ---- the save side ----
-// NOT under contract (engine blocker): (*unsafeEventQueue).snapshot sorts with sort.Slice(sorted, func(i, j) { return
-// sorted.less(i, j) }) and the engine answers "outside subset: call to less inside a pure closure"; without a contract
-// for snapshot, (*SerialEngine).SaveCheckpoint cannot be framed either. Intended contract of snapshot: result is the
-// queue's events permuted by Slice_pi into (time, seq) ascending order, queue untouched.
+// ---- the save side: snapshot lists the queued events in pop order ((time, seq) ascending) without touching the queue ----
+//@ fn (*unsafeEventQueue).snapshot
+//@   property C07
+//@   requires q != nil
+//@   witness pi map = Slice_pi
+//@   label C07.snapshot.len
+//@   ensures len(result) == len(q.events)
+//@   label C07.snapshot.perm
+//@   ensures isPerm(pi, len(q.events))
+//@   label C07.snapshot.same
+//@   ensures forall k in 0..len(result) :: result[k] == q.events[pi[k]].event
+//@   label C07.snapshot.sorted
+//@   ensures forall k in 1..len(result) :: !keyLt(evTime(q.events[pi[k]].event), q.events[pi[k]].seq, evTime(q.events[pi[k - 1]].event), q.events[pi[k - 1]].seq)
+//@   label C07.snapshot.fresh
+//@   ensures len(result) == 0 || fresh(result)
+//@   assigns nothing
+//@   loop 0: invariant -1 <= rangeindex && rangeindex < len(sorted) && len(out) == len(sorted) && fresh(out) && len(sorted) == len(q.events)
+//@   loop 0: invariant forall k in 0..rangeindex + 1 :: out[k] == sorted[k].event
+
+//@ fn (*SerialEngine).SaveCheckpoint
+//@   property C07
+//@   requires e != nil && e.queue != nil && e.secondaryQueue != nil && evCodecReady()
+//@   label C07.engine.save.time
+//@   ensures jsonEncCount == old(jsonEncCount) + 1 ==> as(mkiface(jsonEncTyp, jsonEncVal), "serialEngineCheckpoint").Time == e.time
+//@   label C07.engine.save.error
+//@   ensures jsonEncCount == old(jsonEncCount) ==> result != nil
+//@   assigns jsonEncTyp, jsonEncVal, jsonEncCount
